@@ -5,12 +5,13 @@ SPEC = {
         "AM.Ingest.batch_best_effort", "AM.Ingest.valid_alerts_are_stored", "AM.Ingest.post_ok_iff_all_valid",
         "AM.Ingest.overlap_keeps_earliest_start", "AM.Ingest.timeout_end_pushed_forward",
         "AM.Ingest.explicit_past_end_resolves", "AM.Ingest.putValue_identity",
-        "AM.Ingest.get_returns_unexpired", "AM.Ingest.gc_only_resolved", "AM.Ingest.put_leaves_others",
+        "AM.Ingest.get_returns_unexpired", "AM.Ingest.get_filter_flags", "AM.Ingest.get_filter_flags_hides_inhibited", "AM.Ingest.gc_only_resolved", "AM.Ingest.put_leaves_others",
     ],
     "engines": [
         {"name": "ingest", "pkg": "./ingest", "search_cases": 15000},
-        # the API's resolve_timeout, routing tree (receivers of GET /alerts) and served configuration belong to the configuration in force (C17's engine)
-        {"name": "reload", "pkg": "./reload", "search_cases": 4, "timeout_quick": 400, "timeout_thorough": 900, "timeout_search": 400, "only": ["failed_reload_keeps_running", "failed_reload_keeps_config"]},
+        # the API's resolve_timeout, routing tree (receivers of GET /alerts) and served configuration belong to the configuration in force (C17's engine);
+        # its `astatus` op is where an alert is silenced AND inhibited behind the real status callback: the query flags of GET (get_filter_flags)
+        {"name": "reload", "pkg": "./reload", "search_cases": 4, "timeout_quick": 400, "timeout_thorough": 900, "timeout_search": 400, "only": ["failed_reload_keeps_running", "failed_reload_keeps_config", "get_filter_flags"]},
     ],
     "rule": "random submission histories through the real API v2 HTTP handler (POST/GET /api/v2/alerts, in-process) on the real "
             "mem.Alerts provider + a real Inhibitor under synctest virtual time: 3-5 label sets per case, batches of 1-3 alerts "
@@ -18,7 +19,9 @@ SPEC = {
             "now, re-fired), the same label set twice in a batch, empty-valued labels, invalid label/annotation names, empty label "
             "sets, end before start; interleaved with GETs and with waits across the provider's GC ticks (3/10/30 min); "
             "resolve_timeout 1/2/5 min; a case is non-trivial when it hits a tagged branch (post:overlap, post:timeout-resend, "
-            "post:explicit-past-end, post:400, gc:collected, get:end-equals-now, get:suppressed, …)",
+            "post:explicit-past-end, post:400, gc:collected, get:end-equals-now, get:suppressed, …); engine reload (the real application): an alert that is "
+            "silenced AND inhibited plus its active source, GET /api/v2/alerts with inhibited=false / silenced=false / active=false: who is listed "
+            "(AM.Ingest.passesFlags on the statuses the API itself reports)",
     "assumptions": [
         "fingerprints are injective (the model keys alerts by their label list)",
         "label values are valid UTF-8 (the JSON decoder guarantees it); compat.IsValidLabelName is in its default classic mode",
